@@ -12,6 +12,14 @@ The objects that `USBDevice.elaborate` creates locally (token detector, receiver
 wrapping their classes in the `device` module's namespace while the design is elaborated (observation only: the wrapper
 is a subclass that records the instance).
 
+In addition the pre-multiplexer `EndpointInterface` outputs of EVERY endpoint on the multiplexer (control endpoint and the
+spec's bulk IN / bulk OUT / status endpoints, in `add_interface` order) are sampled: handshakes_out.ack|nak|stall,
+tx.valid/first/last, timer.start.  The driver evaluates the SLOT CONTRACT of lean/LunaVerif/Model/Device/SlotContract.lean
+on them (one `ok` column per endpoint, expected 1; the phase column is informational): for the three stream/status
+endpoint kinds this re-checks on the real gateware what `Lemmas/C20Endpoints.lean` proves of their models AND ties the
+pulse decode / wiring of `Lemmas/C20Device.lean` to the real design; for the control endpoint it checks `restHolds`, the
+assumption that `envOk_of_endpoints` still makes.
+
 The Lean driver also evaluates, cycle by cycle, the two ASSUMPTIONS of the theorem `tx_never_during_rx`
 (lean/LunaVerif/Lemmas/C20CycMain.lean) on the sampled trace: `hostOk` (no reception while the response window is open)
 and `envOk` (the endpoints request transmissions only at ready_for_response pulses …).  The expected value of both
@@ -96,17 +104,53 @@ class CycHarness(X.TraceHarness):
                         rcv.timer.tx_allowed, gen.stream.ready]
         self.sig_speed = self.dev.speed
         self.cyc_in, self.cyc_out, self.speeds = [], [], set()
+        # the endpoints on the multiplexer, in add_interface order: (kind, number, interface)
+        self.slots = []
+        for ep in self.dev._endpoints:
+            name = type(ep).__name__
+            if name == "USBControlEndpoint":
+                kind, num = 0, 0
+            elif name in ("USBStreamInEndpoint", "USBSignalInEndpoint"):
+                kind, num = 1, ep._endpoint_number
+            elif name == "USBStreamOutEndpoint":
+                kind, num = 2, ep._endpoint_number
+            else:
+                raise LookupError("endpoint class %s has no slot kind" % name)
+            self.slots.append((kind, num, ep.interface))
+        if [i for _, _, i in self.slots] != list(epm._interfaces):
+            raise LookupError("the multiplexer's interfaces are not the device's endpoints in order")
+        self.sig_slots = []
+        for _, _, itf in self.slots:
+            ho = itf.handshakes_out
+            self.sig_slots.append((ho.ack, ho.nak, ho.stall, itf.tx.valid, itf.tx.first, itf.tx.last, itf.timer.start))
 
     def _sample(self, ctx):
         super()._sample(ctx)
-        self.cyc_in.append([int(ctx.get(s)) for s in self.sig_in])
+        row = [int(ctx.get(s)) for s in self.sig_in]
+        for a, n, st, v, f, l, ts in self.sig_slots:
+            row += [int(bool(ctx.get(a) or ctx.get(n) or ctx.get(st))), int(ctx.get(v)), int(ctx.get(f)), int(ctx.get(l)),
+                    int(ctx.get(ts))]
+        self.cyc_in.append(row)
         self.cyc_out.append([int(ctx.get(s)) for s in self.sig_out])
         self.speeds.add(int(ctx.get(self.sig_speed)))
 
 
-def cfg_ints():
-    """`# 2 filterByAddress clk12 fsOnly speed T L` (USBDevice on a plain UTMI bus: 12 MHz, always_fs, speed FULL)."""
-    return [2, 1, 1, 1, 1, PARAM_T, PARAM_L]
+def cfg_ints(h=None):
+    """`# 2 filterByAddress clk12 fsOnly speed T L (kind epNum)*` (USBDevice on a plain UTMI bus: 12 MHz, always_fs, speed
+    FULL; one (kind, number) pair per endpoint on the multiplexer)."""
+    out = [2, 1, 1, 1, 1, PARAM_T, PARAM_L]
+    for kind, num, _ in (h.slots if h is not None else []):
+        out += [kind, num]
+    return out
+
+
+def names(h):
+    ni, no = list(NAMES_IN), list(NAMES_OUT)
+    for k, (kind, num, _) in enumerate(h.slots):
+        tag = "slot%d_%s%d" % (k, ("ctl", "in", "out")[kind], num)
+        ni += [tag + "_" + x for x in ("hs", "valid", "first", "last", "timer_start")]
+        no += [tag + "_contract_ok", tag + "_phase"]
+    return ni, no
 
 
 def rows(h):
@@ -114,5 +158,5 @@ def rows(h):
     assumption columns (hostOk, envOk) are expected to be 1, the window code is informational (not compared)."""
     outs = []
     for o in h.cyc_out:
-        outs.append(list(o) + [1, 1, None])
+        outs.append(list(o) + [1, 1, None] + [1, None] * len(h.slots))
     return h.cyc_in, outs
